@@ -185,6 +185,21 @@ pub fn build<Data: GarnishData>(parse_root: usize, parse_tree: Vec<ParseNode>, d
         }
     }
 
+    // and that no node is handed out twice, the root to nobody and every other node to at most one parent
+    let mut reached = vec![false; parse_tree.len()];
+    reached[parse_root] = true;
+    for node in parse_tree.iter() {
+        for child in [node.get_left(), node.get_right()].into_iter().flatten() {
+            if reached[child] {
+                Err(CompilerError::new_message(format!(
+                    "Parse nodes do not form a tree, node {} is reached more than once",
+                    child
+                )))?;
+            }
+            reached[child] = true;
+        }
+    }
+
     // safety net, a well formed tree visits each node a small constant number of times
     let max_visits = parse_tree.len() * 8 + 16;
     let mut visits = 0;
